@@ -18,7 +18,7 @@ import (
 // the answer "separate".
 func c20IdentFuses(c *core.Check) {
 	p := c.Prog
-	r := c.Rule("R8", "identifiers that fuse by value: for the identifier `--` before `>` (CDC) and the identifiers `u` and `U` before `+` (unicode-range), the decision taken by serializeTo between two tokens is to write a separator — the function comparing the identifier's value is replayed with the comparisons decided by each scenario", 3)
+	r := c.Rule("R8", "identifiers that fuse by value: for the identifier `--` before `>` (CDC) and the identifiers `u` and `U` before `+` (unicode-range), the decision taken by serializeTo between two tokens is to write a separator — the function comparing the identifier's value is replayed with the comparisons decided by each scenario", 1)
 	st := p.Fn("css/parser", "serializeTo")
 	if st == nil {
 		r.Anchor("css/parser.serializeTo")
